@@ -311,6 +311,9 @@ func runCheck(prop, tier string, repo, hdir string, jobs int, seed int64) int {
 				if same {
 					// keep the replay file
 					rdir := filepath.Join(root, "replays", prop)
+					if d := os.Getenv("VERIF_EVIDENCE_DIR"); d != "" {
+						rdir = filepath.Join(d, "replays", prop)
+					}
 					os.MkdirAll(rdir, 0755)
 					dst := filepath.Join(rdir, fmt.Sprintf("%s-%d-%s", hs.Fn, hidx, name))
 					b, _ := os.ReadFile(filepath.Join(mdir, name))
@@ -548,9 +551,13 @@ func writeEvidence(root, prop, tier string, seed int64, spec CheckSpec, results 
 		"property_id": prop, "tier": tier, "seed": seed, "level": spec.Level, "coverage": cov,
 		"assumptions": spec.Assumptions, "wall_s": round2(wall), "violations": nVio,
 	}
-	os.MkdirAll(filepath.Join(root, "evidence"), 0755)
+	edir := filepath.Join(root, "evidence")
+	if d := os.Getenv("VERIF_EVIDENCE_DIR"); d != "" {
+		edir = d // used when the checks are run against a deliberately broken tree
+	}
+	os.MkdirAll(edir, 0755)
 	b, _ := json.MarshalIndent(ev, "", " ")
-	os.WriteFile(filepath.Join(root, "evidence", prop+".json"), b, 0644)
+	os.WriteFile(filepath.Join(edir, prop+".json"), b, 0644)
 }
 
 func max1(n int) int {
